@@ -206,18 +206,18 @@ pub fn run(env: &Env) -> Report {
         }
         systematic(env, &mut rep, &mut t, &lay, si, nshards, if env.quick() { 6 } else { 32 }, seed);
         if !env.quick() && si == 0 {
-            // long-word soak: one uncommitted word of 3000 characters over worst-case okkhor patterns
+            // long-word soak (thorough tier: ~2 minutes): one uncommitted word of 3000 characters over worst-case okkhor patterns
             let xdg = env.fresh_xdg("soak");
             t.line("case c01-soak");
             let mut o = Opts::none(); o.phonetic_suggestion = true;
             if let Some(mut s) = Sess::new(&mut t, &env.data, "c", PHONETIC, o, &xdg) {
-                for i in 0..3000 {
+                for i in 0..(if env.quick() { 2400 } else { 3000 }) {
                     let c = "ngkkh".chars().nth(i % 5).unwrap();
                     let ob = s.imp.key(code_for_char(c).unwrap(), 0, 0);
                     if ob == Obs::Panic { rep.violation("C01", "panic", format!("long word: panic at length {}", i + 1), json!({"stream": "c01", "soak": "ngkkh", "length": i + 1})); break; }
                 }
                 if s.imp.slowest > 5.0 { rep.violation("C01", "slow-event", format!("long word: an event took {:.2}s", s.imp.slowest), json!({"stream": "c01", "soak": "ngkkh"})); }
-                rep.notes.push(format!("soak: 3000-character word, slowest event {:.3}s", s.imp.slowest));
+                rep.notes.push(format!("soak: {}-character word, slowest event {:.3}s", if env.quick() { 2400 } else { 3000 }, s.imp.slowest));
                 t.line("drop c");
             }
         }
